@@ -521,7 +521,8 @@ def do_query(q, tier, seed, validate=True):
 # ------------------------------------------------------------------ main
 def expand(prop, spec, tier, only):
     qs = []
-    for ob in spec.OBLIGATIONS:
+    obs = list(spec.OBLIGATIONS) + (list(getattr(spec, 'DISABLED', [])) if only and os.environ.get('VF_DISABLED') else [])   # (experiments on obligations that are not part of the check)
+    for ob in obs:
         if only and not re.search(only, ob['name']): continue
         if tier == 'quick' and ob.get('thorough_only'): continue
         ps = ob.get('params_' + tier) or ob.get('params_quick') or [{}]
